@@ -84,6 +84,24 @@ Proof.
     unfold planLimit in Hp'. unfold overhead, upSealerOverhead. lia.
 Qed.
 
+(** with the room check of fixes/C10-validate-room-for-offset-varint.patch (header + tag + 11 for
+    the longest header the spec can produce) validation gives [margin] itself *)
+Lemma validated_margin c scid dcid ipn lens single udpMin maxPacket tokLen :
+  validateSpecT scid dcid ipn lens single udpMin (c_plans c) maxPacket tokLen = true ->
+  c_maxSize c = maxPacket ->
+  (forall i, hdrOf c i <= maxHdrLen scid dcid lens single tokLen) ->
+  margin c.
+Proof.
+  intros Hv Hmax Hh i idx. destruct (validateSpecT_spec _ _ _ _ _ _ _ _ _ Hv) as (_ & Hm & Hp). cbv zeta in Hm, Hp.
+  specialize (Hh i). unfold capAt, capOf. rewrite Hmax.
+  assert (Hcase : c_plans c = [] \/ c_plans c <> []) by (destruct (c_plans c); [left; reflexivity|right; discriminate]).
+  destruct Hcase as [EP|EP].
+  - rewrite EP. cbn [planFor snd Z.gtb Z.compare andb]. unfold overhead, upSealerOverhead. lia.
+  - pose proof (planFor_in (c_plans c) idx EP) as Hin.
+    rewrite Forall_forall in Hp. destruct (Hp _ Hin) as [Hp' _].
+    unfold planLimit in Hp'. unfold overhead, upSealerOverhead. lia.
+Qed.
+
 (** * C10_accepted_flight_covers_hello *)
 
 (** For every per-datagram builder kind (pass-through, plain, Ex, random): if no datagram of
@@ -107,6 +125,21 @@ Proof.
                 ltac:(unfold flightFuel; lia) (room_of_margin c Hm) Hok) as Hd.
   split; [|split; [exact Hc|split; [exact Hp|exact Hd]]].
   intros E. rewrite E in Hd. cbn in Hd. lia.
+Qed.
+
+(** ... and with [margin] discharged from dial's validation *)
+Lemma accepted_flight_covers_hello_validated c helloLen plens scid dcid ipn lens single udpMin maxPacket tokLen :
+  validateSpecT scid dcid ipn lens single udpMin (c_plans c) maxPacket tokLen = true ->
+  c_maxSize c = maxPacket -> (forall i, hdrOf c i <= maxHdrLen scid dcid lens single tokLen) ->
+  c_bk c <> BFlight -> 0 < helloLen ->
+  OW.no_dgerr (flight c helloLen plens) ->
+  let fs := concat (map OW.dg_frames (flight c helloLen plens)) in
+  flight c helloLen plens <> [] /\
+  UFrames.ProofsOnWire.rchain 0 fs /\ Forall UFrames.ProofsOnWire.range_pos fs /\
+  UDial.Retx.total_len fs = helloLen.
+Proof.
+  intros Hv Hmax Hh Hbk Hpos Hok.
+  exact (accepted_flight_covers_hello c helloLen plens Hbk Hpos (validated_margin c _ _ _ _ _ _ _ _ Hv Hmax Hh) Hok).
 Qed.
 
 (** * every datagram of an accepted spec is at least 1200 bytes long *)
